@@ -102,15 +102,15 @@ theorem good_seq_ok {e es p p1 f1 evs1 p2 f2 evs2}
 theorem good_peekFor_ok {e p p1 f1 evs}
     (ih : Good P cfg env inp e p (.ok p1 f1) evs) :
     Good P cfg env inp (.peekFor e) p (.ok p []) evs := by
-  intro ko pd pmk st code pc s f hc hp hlead
-  simp only [Lead] at hlead
+  intro ko pd pmk st code pc s f hc hp _
+  have hlead := Lead_false inp p false e
   norm_code at hc
   obtain ⟨h1, hc⟩ := hc.head
   obtain ⟨h2, hc⟩ := hc.head
   have hcb := hc.left
   obtain ⟨h3, hc⟩ := hc.right.head
   obtain ⟨h4, _⟩ := hc.head
-  obtain ⟨s1, fr1, hS, hst⟩ := ih ko pd pmk _ code _ s (f.set st.label (s.pos, s.ti)) hcb hp hlead
+  obtain ⟨s1, fr1, hS, hst⟩ := ih ko false false _ code _ s (f.set st.label (s.pos, s.ti)) hcb hp hlead
   have hfr : fr1 st.label = (p, s.ti) := by
     rw [hS.frame st.label (Nat.lt_succ_self _)]; simp [Frame.set, hp.pos]
   obtain ⟨hk, hl⟩ := hS.keep hp.len
@@ -128,13 +128,13 @@ theorem good_peekFor_ok {e p p1 f1 evs}
 theorem good_peekFor_fail {e p evs}
     (ih : Good P cfg env inp e p .fail evs) :
     Good P cfg env inp (.peekFor e) p .fail evs := by
-  intro ko pd pmk st code pc s f hc hp hlead
-  simp only [Lead] at hlead
+  intro ko pd pmk st code pc s f hc hp _
+  have hlead := Lead_false inp p false e
   norm_code at hc
   obtain ⟨h1, hc⟩ := hc.head
   obtain ⟨h2, hc⟩ := hc.head
   have hcb := hc.left
-  obtain ⟨s2, fr2, hF, hj, hst⟩ := ih ko pd pmk _ code _ s (f.set st.label (s.pos, s.ti)) hcb hp hlead
+  obtain ⟨s2, fr2, hF, hj, hst⟩ := ih ko false false _ code _ s (f.set st.label (s.pos, s.ti)) hcb hp hlead
   refine ⟨s2, fr2, ?_, by jmp, ?_⟩
   · refine ⟨hF.keep, hF.len, ?_, hF.maxTok, hF.memo⟩
     intro n hn
@@ -147,14 +147,14 @@ theorem good_peekFor_fail {e p evs}
 theorem good_peekNot_ok {e p evs}
     (ih : Good P cfg env inp e p .fail evs) :
     Good P cfg env inp (.peekNot e) p (.ok p []) evs := by
-  intro ko pd pmk st code pc s f hc hp hlead
-  simp only [Lead] at hlead
+  intro ko pd pmk st code pc s f hc hp _
+  have hlead := Lead_false inp p false e
   have hcAll := hc
   norm_code at hc
   obtain ⟨h1, hc⟩ := hc.head
   obtain ⟨h2, hc⟩ := hc.head
   have hcb := hc.left
-  obtain ⟨s2, fr2, hF, hj, hst⟩ := ih st.label pd pmk _ code _ s (f.set st.label (s.pos, s.ti)) hcb hp hlead
+  obtain ⟨s2, fr2, hF, hj, hst⟩ := ih st.label false false _ code _ s (f.set st.label (s.pos, s.ti)) hcb hp hlead
   have hu : env.used st.label = true := hp.usedIn hcb hj
   obtain ⟨_, hc⟩ := hc.right.head
   simp only [CEnv.lbl, hu, ↓reduceIte, List.cons_append, List.nil_append] at hc
@@ -179,13 +179,13 @@ theorem good_peekNot_ok {e p evs}
 theorem good_peekNot_fail {e p p1 f1 evs}
     (ih : Good P cfg env inp e p (.ok p1 f1) evs) :
     Good P cfg env inp (.peekNot e) p .fail evs := by
-  intro ko pd pmk st code pc s f hc hp hlead
-  simp only [Lead] at hlead
+  intro ko pd pmk st code pc s f hc hp _
+  have hlead := Lead_false inp p false e
   norm_code at hc
   obtain ⟨h1, hc⟩ := hc.head
   obtain ⟨h2, hc⟩ := hc.head
   have hcb := hc.left
-  obtain ⟨s1, fr1, hS, hst⟩ := ih st.label pd pmk _ code _ s (f.set st.label (s.pos, s.ti)) hcb hp hlead
+  obtain ⟨s1, fr1, hS, hst⟩ := ih st.label false false _ code _ s (f.set st.label (s.pos, s.ti)) hcb hp hlead
   obtain ⟨h3, _⟩ := hc.right.head
   obtain ⟨hk, hl⟩ := hS.keep hp.len
   refine ⟨s1, fr1, ?_, by jmp, ?_⟩
